@@ -132,6 +132,10 @@ class Ctx:
                 va, vb = assumed_int(self.assumptions, co[1]), assumed_int(self.assumptions, co[2])
                 if va is not None and vb is not None:
                     return ("const", "bool", bool(_CMP[co[0]](va, vb)))
+            if t[0] == "call" and t[1].endswith("::is_zero") and t[1].startswith("cosmwasm_std::Uint") and t[2]:
+                vz = assumed_int(self.assumptions, t[2][0])
+                if vz is not None:
+                    return ("const", "bool", vz == 0)
             if t[0] == "call" and t[1] in EMPTY_CALLS and t[2]:
                 for pred, value in self.assumptions:
                     if isinstance(value, tuple) and value[0] == "len" and pred(t[2][0]):
